@@ -258,6 +258,10 @@ async def _run(loop, case, ctx_info, tmp):
                 if got != exp:
                     raise Violation(f"C01/{kind}/downloaded_bytes/{diff_kind(got, exp)}",
                                     dict(rec=rec, got_len=len(got), exp_len=len(exp), first_diff=first_diff(got, exp)))
+    except (aioftp.AIOFTPException, OSError, EOFError, asyncio.TimeoutError, asyncio.IncompleteReadError) as e:
+        # every operation generated here is valid (existing files, writable targets): the client must complete it
+        last = ctx_info["ops"][-1] if ctx_info["ops"] else {}
+        raise Violation(f"C01/{last.get('kind', 'setup')}/valid_transfer_raised_{type(e).__name__}", dict(rec=last, error=repr(e)[:300]))
     finally:
         client.close()
         observer.close()
